@@ -166,7 +166,7 @@ func init() {
 	engine.Register(&engine.Prop{
 		ID:    "C01",
 		Level: "model_checking",
-		Rule: "every content list of length <=2 over the entry-template alphabet (quick: 25 templates + 15 packager-tagged; thorough: 36 + 15, plus triples over the 12 simplest) " +
+		Rule: "every content list of length <=2 over the entry-template alphabet (39 templates + 15 packager-tagged; thorough adds triples over the 15 simplest and pairs under two deviating settings at once) " +
 			"x every <=1-deviation build setting (umask, mtime, disable_globbing, deb/rpm compression), each built for all five formats through Parse->Get->WithDefaults->Package; plus glob / directory / tree / file sources rebuilt after the source tree changed (file added, removed, rewritten with the same length, chmod, new mtime): the second package must reflect the changed tree; " +
 			"payload decoded by harness-owned readers and compared entry by entry with the reference plan; non-trivial = at least one payload entry decoded; distinct = distinct (format, decoded logical tree)",
 		Assumptions: []string{
@@ -181,9 +181,6 @@ func init() {
 		},
 		Enumerate: func(env *engine.Env, yield func(any) bool) {
 			ts := c01Templates()
-			if !env.Thorough() {
-				ts = ts[:c01NQuick]
-			}
 			all := append(append([]model.Entry{}, ts...), c01Tagged()...)
 			sets := c01Settings()
 			// singletons under every setting
@@ -231,7 +228,24 @@ func init() {
 				}
 			}
 			if env.Thorough() {
-				small := ts[:12]
+				// two deviating settings at once
+				for _, um := range []os.FileMode{0o022, 0o077} {
+					for _, mt := range []string{"B", "unset"} {
+						for _, ng := range []bool{false, true} {
+							s2 := Setting{Name: fmt.Sprintf("umask=%o,mtime=%s,noglob=%v", um, mt, ng), Umask: um, MTime: mt, NoGlob: ng}
+							for i, a := range ts {
+								for j, b := range ts {
+									if i < j {
+										if !yield(C01Case{Setting: s2, List: []model.Entry{a, b}}) {
+											return
+										}
+									}
+								}
+							}
+						}
+					}
+				}
+				small := ts[:15]
 				for _, a := range small {
 					for _, b := range small {
 						for _, c := range small {
